@@ -289,6 +289,7 @@ type Machine struct {
 	ShardDepth int
 	forkHash   uint32
 	forkCount  int
+	forcedLen  int
 }
 
 func NewMachine(p *Program, solverKind string, timeoutMs int) (*Machine, error) {
@@ -361,10 +362,13 @@ func (m *Machine) check(extra *smt.Term, model []*smt.Term) (smt.Result, map[int
 		as = append(as, extra)
 	}
 	if slowDir == "" {
+		if incremental {
+			return m.Solver.CheckInc(m.pc, extra, model)
+		}
 		return m.Solver.Check(as, model)
 	}
 	t0 := time.Now()
-	r, mod := m.Solver.Check(as, model)
+	r, mod := m.Solver.CheckInc(m.pc, extra, model)
 	if d := time.Since(t0); d > 40*time.Millisecond {
 		slowN++
 		os.WriteFile(fmt.Sprintf("%s/q-%s-%d-%dms-%s.smt2", slowDir, m.Harness, slowN, d.Milliseconds(), r), []byte(smt.Standalone(m.St, as)), 0o644)
@@ -374,6 +378,7 @@ func (m *Machine) check(extra *smt.Term, model []*smt.Term) (smt.Result, map[int
 
 var slowDir = os.Getenv("SYMGO_SLOWDIR")
 var slowN int
+var incremental = os.Getenv("SYMGO_NOINC") == ""
 
 // checkModel decides pc ∧ extra and, when satisfiable, returns an assignment of all nd variables of the path.
 func (m *Machine) checkModel(extra *smt.Term) (smt.Result, map[string]uint64) {
@@ -415,6 +420,8 @@ func (m *Machine) choose(compute func() ([]int, []map[string]uint64)) int {
 	alt := c.alts[c.cur]
 	if c.models != nil {
 		m.model = c.models[c.cur]
+	} else if len(c.alts) == 1 && m.pos <= m.forcedLen {
+		m.model = nil // forced prefix taken over from another worker: no model known yet
 	}
 	if len(c.alts) > 1 && m.ShardN > 1 {
 		// only real forks count towards the shard prefix
@@ -767,11 +774,16 @@ type RunResult struct {
 	Inconclusive []string
 }
 
-// Explore runs the harness function over all paths.
-func (m *Machine) Explore(fn *ssa.Function) (res RunResult) {
+// Explore runs the harness function over all paths below the forced trail prefix.
+// After every path, donate (if non-nil) may take over untried alternatives.
+func (m *Machine) Explore(fn *ssa.Function, prefix []int, donate func(prefixes [][]int) bool, wantDonate func() bool) (res RunResult) {
 	res.Harness = fn.Name()
 	m.Harness = fn.Name()
 	m.trail = nil
+	for _, a := range prefix {
+		m.trail = append(m.trail, choice{alts: []int{a}})
+	}
+	m.forcedLen = len(prefix)
 	inconc := map[string]bool{}
 	for {
 		m.resetPath()
@@ -789,6 +801,9 @@ func (m *Machine) Explore(fn *ssa.Function) (res RunResult) {
 			m.Stats.BudgetHits++
 			break
 		}
+		if wantDonate != nil && wantDonate() {
+			m.donate(donate)
+		}
 		if !m.backtrack() {
 			break
 		}
@@ -798,6 +813,36 @@ func (m *Machine) Explore(fn *ssa.Function) (res RunResult) {
 	}
 	sort.Strings(res.Inconclusive)
 	return res
+}
+
+// donate hands the untried alternatives of the shallowest open choice point to other workers.
+func (m *Machine) donate(give func(prefixes [][]int) bool) {
+	n := m.pos
+	if n > len(m.trail) {
+		n = len(m.trail)
+	}
+	for i := 0; i < n; i++ {
+		c := &m.trail[i]
+		if c.cur+1 >= len(c.alts) {
+			continue
+		}
+		var out [][]int
+		for _, a := range c.alts[c.cur+1:] {
+			p := make([]int, 0, i+1)
+			for j := 0; j < i; j++ {
+				p = append(p, m.trail[j].alts[m.trail[j].cur])
+			}
+			p = append(p, a)
+			out = append(out, p)
+		}
+		if give(out) {
+			c.alts = c.alts[:c.cur+1]
+			if c.models != nil {
+				c.models = c.models[:c.cur+1]
+			}
+		}
+		return
+	}
 }
 
 func (m *Machine) runOnePath(fn *ssa.Function, inconc map[string]bool) {
